@@ -469,7 +469,6 @@ func elemKey(v ssa.Value) string {
 	return valueKey(v)
 }
 
-
 // lenKey: a structural key under which two values are the same slice or slices of provably
 // equal length: stable struct-field paths rooted at parameters, niladic getters of the flag
 // package, and lo.Map (length-preserving) of such a value.
@@ -636,7 +635,6 @@ func containsTested(f *ssa.Function, split *ssa.Call, blk *ssa.BasicBlock) bool 
 	return false
 }
 
-
 func satisfies(have, want types.Type) bool {
 	if types.Identical(have, want) {
 		return true
@@ -703,25 +701,24 @@ func noReturnBlock(b *ssa.BasicBlock) bool {
 
 // Sites confirmed by reading that the rules above cannot decide (one line of reason each).
 var confirmedPanicFree = map[string]string{
-	"L13|(*internal/filefmt.CoffFormat).Write|finalBytes[0:coffHeaderSize]":                                      "the buffer starts with a placeholder of coffHeaderSize + 3×coffSectionHeaderSize bytes written before any data (rule P4 checks that order)",
+	"L13|(*internal/filefmt.CoffFormat).Write|finalBytes[0:coffHeaderSize]":                                    "the buffer starts with a placeholder of coffHeaderSize + 3×coffSectionHeaderSize bytes written before any data (rule P4 checks that order)",
 	"L13|(*internal/filefmt.CoffFormat).Write|finalBytes[currentOffset:currentOffset + coffSectionHeaderSize]": "as above; currentOffset runs over the three section-header slots of that placeholder",
-	"L13|internal/codegen.ResolveOpcode|opStr[i:i + 2]":                                                             "i steps by 2 below len(opStr), whose length was tested to be even",
-	"L13|internal/codegen.handleLGDT|opStr[1:len(opStr) - 1]":                                                       "opStr begins with `[` and ends with `]` (tested just above): two different characters, so it has at least two",
-	"M13b|internal/codegen.getImmediateValue|make with a run-time length": "the length is the immediate width of the matched table row (1, 2 or 4 — rule T5 for the hand-written rows, JSON rows are data of the trusted base)",
-	"M13b|internal/codegen.handleALIGNB|make with a run-time length":      "padding is smaller than the alignment unit, which pass 1 hands over as a positive int32 (processALIGNB converts and rejects the rest)",
+	"L13|internal/codegen.ResolveOpcode|opStr[i:i + 2]":                                                        "i steps by 2 below len(opStr), whose length was tested to be even",
+	"L13|internal/codegen.handleLGDT|opStr[1:len(opStr) - 1]":                                                  "opStr begins with `[` and ends with `]` (tested just above): two different characters, so it has at least two",
+	"M13b|internal/codegen.getImmediateValue|make with a run-time length":                                      "the length is the immediate width of the matched table row (1, 2 or 4 — rule T5 for the hand-written rows, JSON rows are data of the trusted base)",
+	"M13b|internal/codegen.handleALIGNB|make with a run-time length":                                           "padding is smaller than the alignment unit, which pass 1 hands over as a positive int32 (processALIGNB converts and rejects the rest)",
 	// sort comparator: i, j range over allEntries[4:], the slice handed to sort.SliceStable
 	// indexes taken from the matched row of the instruction table: `#k` names an operand position of the
 	// form; the matchers accept a form only when it has as many operands as the statement (rule X13 guards
 	// that); rows of the hand-written fallback table are range-checked by rule T5; rows of the embedded
 	// JSON table are data of the trusted base
-	"V13|internal/codegen.handleMOV|operands[operandIndex]":               "operand position from the matched table row (+r addend)",
-	"V13|internal/codegen.handleMOV|operands[immIndex]":                   "operand position from the matched table row (immediate)",
-	"V13|internal/codegen.generateArithmeticCode|operands[operandIndex]":  "operand position from the matched table row (+r addend)",
-	"V13|internal/codegen.generateArithmeticCode|operands[immIndex]":      "operand position from the matched table row (immediate)",
-	"V13|internal/codegen.generateLogicalCode|operands[operandIndex]":     "operand position from the matched table row (+r addend)",
-	"V13|internal/codegen.generateLogicalCode|operands[immIndex]":         "operand position from the matched table row (immediate)",
-	"V13|internal/codegen.handleIMUL|params.Operands[operandIndex]":       "operand position from the matched table row, upper bound tested; Atoi of `#k` text is never negative for table rows",
-
+	"V13|internal/codegen.handleMOV|operands[operandIndex]":              "operand position from the matched table row (+r addend)",
+	"V13|internal/codegen.handleMOV|operands[immIndex]":                  "operand position from the matched table row (immediate)",
+	"V13|internal/codegen.generateArithmeticCode|operands[operandIndex]": "operand position from the matched table row (+r addend)",
+	"V13|internal/codegen.generateArithmeticCode|operands[immIndex]":     "operand position from the matched table row (immediate)",
+	"V13|internal/codegen.generateLogicalCode|operands[operandIndex]":    "operand position from the matched table row (+r addend)",
+	"V13|internal/codegen.generateLogicalCode|operands[immIndex]":        "operand position from the matched table row (immediate)",
+	"V13|internal/codegen.handleIMUL|params.Operands[operandIndex]":      "operand position from the matched table row, upper bound tested; Atoi of `#k` text is never negative for table rows",
 }
 
 // ---------------------------------------------------------------------------------------
@@ -919,7 +916,6 @@ func nonNegative(v ssa.Value, depth int) bool {
 	}
 	return false
 }
-
 
 // testedNonNegative: a dominating `idx < 0` false edge or `idx >= 0` true edge.
 func testedNonNegative(f *ssa.Function, idx ssa.Value, blk *ssa.BasicBlock) bool {
@@ -1208,7 +1204,6 @@ func sliceExprCovered(f *ssa.Function, sl *ssa.Slice, blk *ssa.BasicBlock) (stri
 	return "", false
 }
 
-
 // allElementsFlag proves `S[i].(T)` safe from an "all elements are T" flag: a boolean that starts
 // true, is only ever lowered to false — on the not-ok branch of a comma-ok assertion to T of the
 // value stored into S[j] in an earlier loop — and is tested (true) on every way to the assertion.
@@ -1321,7 +1316,6 @@ func monotoneAllFlag(L *ssa.Phi, oks []*ssa.Extract) bool {
 	return walk(L, true) && sawTrue && lowered
 }
 
-
 // fromTableRow: the value is computed from the Addend / Value / Reg / Rm text of an encoding row.
 func fromTableRow(v ssa.Value, seen map[ssa.Value]bool, depth int) bool {
 	if v == nil || seen[v] || depth > 12 {
@@ -1347,8 +1341,9 @@ func fromTableRow(v ssa.Value, seen map[ssa.Value]bool, depth int) bool {
 }
 
 // specialIndexProof decides two idioms that need more than a dominating comparison:
-//   (a) X[k+p] inside the comparator handed to sort.Slice*(X[k:], less): p ranges over X[k:]
-//   (b) X[t] where t is a phi of a sentinel −1 and indexes of callbacks over X itself, under `t != -1`
+//
+//	(a) X[k+p] inside the comparator handed to sort.Slice*(X[k:], less): p ranges over X[k:]
+//	(b) X[t] where t is a phi of a sentinel −1 and indexes of callbacks over X itself, under `t != -1`
 func specialIndexProof(f *ssa.Function, x, idx ssa.Value, blk *ssa.BasicBlock) (string, bool) {
 	// (a)
 	if bo, ok := idx.(*ssa.BinOp); ok && bo.Op == token.ADD && f.Parent() != nil {
@@ -1562,7 +1557,6 @@ func capturedName(v ssa.Value) string {
 	return ""
 }
 
-
 // loopBuiltFrom: P is the loop-header phi of a slice that starts empty and gets exactly one
 // append per round of a range loop over Y; returns Y and the loop's exit edge.
 func loopBuiltFrom(P *ssa.Phi) (ssa.Value, cfgEdge, bool) {
@@ -1655,7 +1649,6 @@ func countsByOne(v ssa.Value) bool {
 	return false
 }
 
-
 // condFact: a comparison that is known to hold on one successor of an If and/or known to fail
 // on the other. `if a && b` (lowered by go/ssa to a phi of false … b) makes a and b hold on the
 // true successor; `if a || b` makes both fail on the false successor; `!c` swaps.
@@ -1736,7 +1729,6 @@ func condFacts(cond ssa.Value, depth int) []condFact {
 	}
 	return nil
 }
-
 
 // evenConsumeProof: s[:2] or s[2:] where s is known to be non-empty and of even length: s is the
 // original string X (a dominating test rejects odd len(X)) or what is left of it after dropping
